@@ -133,8 +133,9 @@ Definition show_disk (d : list (string * sfeat)) : list (string * fterm) :=
 (* below argument parsing and object construction: map file, manifest, data set, loop *)
 Definition torch_run (a : TArgs) (seed : Z) (files : list (string * tdesc))
            (pre : list spre) (comp : option scomp) (post : list spost) : tobs :=
-  match parse_map (ta_map a) 0 [] with
-  | MapBadLine _ | MapDuplicate _ => TObsExit 1 [] []
+  match torch_map_loop (ta_map a) 0 [] with
+  | MapExit code => TObsExit code [] []
+  | MapRaise e => TObsExc e [] []
   | MapOk m =>
     match (match comp with
            | None => Some None
